@@ -271,6 +271,9 @@ func c16Case(kind string, pathKind string) *Case {
 		{Name: "nolm-noopt", Opt: CompileOpts{Optimize: false, LM: false, AVs: cp.avs, Path: "x.pory"}},
 	}
 	cs := &Case{Name: fmt.Sprintf("c16/%s/path=%s", kind, pathKind), Prog: cp.prog, Variants: variants, SymLines: true, NonTrivial: true, Shape: c16Shape{Program: kind}, MaxPaths: 64}
+	// programs without string literals and raw blocks: several constructs may
+	// be written on one source line
+	cs.SharedLines = kind == "script" || kind == "autovar"
 	cs.Setup = func(x *OracleCtx) {
 		if cp.setup != nil {
 			cp.setup(x)
@@ -428,9 +431,9 @@ func RunC16(env *Env, rep *Report) {
 		cases = append(cases, c16Case("data", "atom"), c16Case("script", "backslash"), c16Case("raw-next-line", "atom"))
 	}
 	rep.Technique = "symbolic execution of the real emitter's line-marker paths (go/ssa) with symbolic line numbers (a strictly increasing symbolic map of the rendered lines) and a symbolic input path; assertions on the marker lines decided by the solver (z3 LIA + seq)"
-	rep.Explanation = "Bounded symbolic verification, not a proof. Programs containing every construct that gets a marker (commands, labels, flag/var/defeated operands in if/elif/while/do-while, switch operand and cases, autovar conditions and switches, text statements and inline text, movement statements, steps and hoisted moves(), marts and items, map-script entries and table rows, raw blocks with the backtick on the keyword's line or the next) are compiled by symbolic execution with every token's line number replaced by L(k), a strictly increasing symbolic function of the rendered line k with L(1)>=1 and L(last)<=N - i.e. any number of blank or comment lines anywhere - and with the input path a symbolic string, a path with backslashes, or empty. Asserted: (1) the -lm output without its marker lines equals the -lm=false output line by line; (2) every marker has the form '# n \"path\"' with the given path (backslashes doubled), 1<=n<=N valid under the path condition, and n = L(k) for the source line k of the construct that follows it (validity queries to the solver); (3) with an empty path there are no markers."
+	rep.Explanation = "Bounded symbolic verification, not a proof. Programs containing every construct that gets a marker (commands, labels, flag/var/defeated operands in if/elif/while/do-while, switch operand and cases, autovar conditions and switches, text statements and inline text, movement statements, steps and hoisted moves(), marts and items, map-script entries and table rows, raw blocks with the backtick on the keyword's line or the next) are compiled by symbolic execution with every token's line number replaced by L(k), an increasing symbolic function of the rendered line k with L(1)>=1 and L(last)<=N - i.e. any number of blank or comment lines anywhere; for the script and autovar programs L is only non-decreasing, so any run of consecutive constructs may also be written on one source line - and with the input path a symbolic string, a path with backslashes, or empty. Asserted: (1) the -lm output without its marker lines equals the -lm=false output line by line; (2) every marker has the form '# n \"path\"' with the given path (backslashes doubled), 1<=n<=N valid under the path condition, and n = L(k) for the source line k of the construct that follows it (validity queries to the solver); (3) with an empty path there are no markers."
 	rep.Bounds = map[string]interface{}{"programs": []string{"script (all statement kinds)", "autovar", "data (text, movement, mart, mapscripts, hoisted text and movement)", "raw (two layouts; empty, blank-only and CRLF blocks for transparency)"}, "cases": len(cases), "paths": "concrete, symbolic (printable, no quote), with backslashes, empty"}
-	rep.Outside = []string{"two constructs written on the same source line (each rendered line holds one construct; L is strictly increasing)", "other program shapes", "whether every construct gets a marker (the property only constrains the markers that are emitted)"}
+	rep.Outside = []string{"two constructs on one source line in the programs with string literals or raw blocks (there L is strictly increasing)", "one construct spread over several lines", "other program shapes", "whether every construct gets a marker (the property only constrains the markers that are emitted)"}
 	rep.Assumptions = []string{"inside a raw block source lines are consecutive", "for a text statement the marker may name the line of the 'text' keyword or of its first literal"}
 	rep.Functions = []string{"tryEmitLineMarker", "emitLineMarker", "shouldEmitLineMarkers", "emitRawStatement", "emitText", "emitMovementStatement", "emitMartStatement", "emitMapScriptStatement", "renderStatements", "renderBranchComparison", "switchBranch"}
 	rep.Match = matchKnownC16
